@@ -68,6 +68,9 @@ extern "C" fn on_crash(sig: libc::c_int) {
 /// Install handlers for SIGSEGV / SIGABRT / SIGBUS / SIGILL / SIGFPE that print a
 /// `CRASH signal=... note=<current history>` line and exit with code 70 (71 after OOM).
 pub fn install_crash_handlers() {
+    if cfg!(miri) {
+        return; // the interpreter reports undefined behaviour itself
+    }
     unsafe {
         // alternate stack so that stack overflows are reported too
         let sz = 1 << 16;
